@@ -42,6 +42,10 @@ type Env struct {
 	critMem MemFn
 	// tok: the calling thread's contribution to a monitor counter at the current point, for mine()
 	tok func(name string) string
+	// entered: at a back edge, the path condition of the header of an inner loop in the ending iteration
+	entered func(j int) (string, bool)
+	// zero: the zero value of a type as the encoder builds it, for iszero()
+	zero func(t types.Type) Val
 }
 
 type unreachedErr struct{ name string }
@@ -985,6 +989,30 @@ func (env *Env) elabCall(x *ECall) Val {
 			fail("unknown identifier %s", id.Name)
 		}
 		return Val{T: types.Typ[types.Bool], S: pc}
+	case name == "iszero":
+		// iszero(x): x is the zero value of its type (arrays and structs included)
+		if len(x.Args) != 1 || env.zero == nil {
+			fail("iszero(x) needs one argument at a program point")
+		}
+		v := env.elab(x.Args[0])
+		if v.T == nil {
+			fail("iszero() needs a typed value")
+		}
+		return Val{T: types.Typ[types.Bool], S: fmt.Sprintf("(= %s %s)", v.S, env.zero(v.T).S)}
+	case name == "entered":
+		// entered(j) in `loop k backedge`: the iteration of loop k that ends here went through the head of loop j
+		if len(x.Args) != 1 || env.entered == nil {
+			fail("entered(j) needs a loop ordinal and a back edge")
+		}
+		lit, ok := x.Args[0].(*EInt)
+		if !ok {
+			fail("entered(j): j must be a literal loop ordinal")
+		}
+		pcj, ok := env.entered(int(lit.V.Int64()))
+		if !ok {
+			fail("entered(%s): no such loop inside this one", lit.V.String())
+		}
+		return Val{T: types.Typ[types.Bool], S: pcj}
 	case name == "waitson":
 		// waitson(ch) at a `site select#k`: one of the select's cases communicates on the channel ch
 		if len(x.Args) != 1 {
